@@ -202,6 +202,11 @@ func typeFromAST(schema Schema, inputTypeAST ast.Type) (Type, error) {
 		}
 		ttype := schema.Type(nameValue)
 		return ttype, nil
+	case nil:
+		// The parser can leave a variable definition without a type
+		// ("query($a: ) {f}"); calling a method on the nil interface would
+		// panic outside any recover.
+		return nil, invariant(false, "Must be a named type.")
 	default:
 		return nil, invariant(inputTypeAST.GetKind() == kinds.Named, "Must be a named type.")
 	}
